@@ -461,13 +461,13 @@ prop('C19',
      assumptions=['internal/seq is exercised as a staged copy of the working-tree sources under the import path github.com/fogfish/golem/seq',
                   'Head/Tail of an empty sequence are outside the statement and are not generated'],
      parts=[
-         dict(name='enum', engine='E6', pkg='c19', test='TestC19Enum', kind='plain', quick=dict(shards=1), thorough=dict(shards=1, timeout=1800)),
+         dict(name='enum', engine='E6', pkg='c19', test='TestC19Enum', kind='plain', quick=dict(shards=1), thorough=dict(shards=1, timeout=5400)),
          dict(name='parallel', engine='E6', pkg='c19', test='TestC19Par', race=True, replay_test='TestReplayPar', env=dict(GORACE='halt_on_error=1'),
-              quick=dict(cases=150, shards=2), thorough=dict(cases=4000, shards=8, timeout=3000)),
+              quick=dict(cases=150, shards=2), thorough=dict(cases=4000, shards=8, timeout=5400)),
          dict(name='rapid', engine='E6', pkg='c19', test='TestC19',
-              quick=dict(cases=20000, shards=4), thorough=dict(cases=1600000, shards=16, timeout=1800)),
+              quick=dict(cases=20000, shards=4), thorough=dict(cases=1600000, shards=16, timeout=5400)),
          dict(name='fuzz', engine='coverage-guided sweep', kind='fuzz', pkg='c19', test='FuzzC19',
-              thorough=dict(execs=3000000, timeout=2400)),
+              thorough=dict(execs=3000000, timeout=5400)),
      ],
      manifest=dict(
          engine='E6', design_ref='4/C19',
